@@ -18,14 +18,15 @@ RULE = (
     "default: no encryptor / EccEncryptor(sel) / Bec2File.write_file without recipient - the ephemeral scalar is learnt through a recording wrapper registered "
     "via the public crypto registry and the block must open under e*Q_sel with the harness's own pinned copy of the four published keys. "
     "interop: blocks sealed by the model are opened by EccDecryptor.decrypt. leading_zero: ephemeral scalars CONSTRUCTED (searched with OpenSSL) so that the shared x-coordinate has a leading 00 byte, in both directions. rawder: raw 64-byte <-> DER conversion vs i2d_PUBKEY. "
-    "reject: EccDecryptor.decrypt on ephemeral points that are off-curve, have a coordinate >= p, are (0,0), or lie on secp256k1 / brainpoolP256r1 must raise. "
+    "reject: EccDecryptor.decrypt on ephemeral points that are off-curve, have a coordinate >= p, are (0,0), or lie on secp256k1 / brainpoolP256r1, or share X with a valid point but carry another Y, must raise - "
+    "also when the SAME decryptor object has just opened a genuine block (an unrelated one, or one whose ephemeral point has the same X). "
     "Every case has a fresh ephemeral key / distinct inputs, so every case is non-trivial; distinct by case hash."
 )
 ASSUMPTIONS = [
     "the four published recipient keys were transcribed once into vlib/bf3model.py (all four verified to be on P-256); a change of the repository constants is reported",
     "any exception counts as refusal of an invalid ephemeral point (types are judged in C14)",
 ]
-REQUIRED_CLASSES = ["repack.recipient-changes", "repack.via=block", "repack.via=file", "sel=0", "sel=1", "sel=2", "sel=3", "edge-scalar", "default.no-encryptor", "default.encryptor(sel)", "default.write_file",
+REQUIRED_CLASSES = ["reject.after-genuine-block.same-x", "repack.recipient-changes", "repack.via=block", "repack.via=file", "sel=0", "sel=1", "sel=2", "sel=3", "edge-scalar", "default.no-encryptor", "default.encryptor(sel)", "default.write_file",
                     "shared-x.leading-zero", "reject.off-curve", "reject.coord>=p", "reject.constructed-y+p", "reject.constructed-x+p", "reject.zero", "reject.other-curve", "key.ends00"]
 
 B2 = sut.B2
@@ -311,11 +312,27 @@ def check_reject(case, rec):
         return  # generator produced a valid point by accident: nothing to demand
     dec = B2.EccDecryptor(case["sel"], sut.private_key_from_int(case["priv"]))
     block = b"\x04" + x.to_bytes(32, "big") + y.to_bytes(32, "big") + case["ct"]
+    # a decryptor is used for many blocks: refusal may not depend on what the SAME decryptor object opened before - in particular a genuine
+    # block whose ephemeral point has the same X (the valid partner of an off-by-one / y+p point), or any other genuine block
+    warm = case.get("warm")
+    hist = ""
+    if warm is not None:
+        wx, wy = warm
+        rec.cls("reject.after-genuine-block" + (".same-x" if wx == x % P else ""))
+        wblock = b"\x04" + wx.to_bytes(32, "big") + wy.to_bytes(32, "big") + case["ct"]
+        try:
+            got = dec.decrypt(wblock)
+        except Exception as e:
+            raise Violation("EccDecryptor.decrypt refused a block with a VALID ephemeral point (x=%x y=%x): %s: %s" % (wx, wy, type(e).__name__, e))
+        want = M.ecies_open(case["priv"], wblock)
+        if want is not None and bytes(got) != want:
+            raise Violation("EccDecryptor.decrypt of a genuine block returned %s, independent ECIES %s" % (bytes(got).hex(), want.hex()))
+        hist = " after the same decryptor opened a genuine block with ephemeral point (x=%x y=%x)" % (wx, wy)
     try:
         r = dec.decrypt(block)
     except Exception:
         return
-    raise Violation("EccDecryptor.decrypt accepted an ephemeral point that is not a valid P-256 point (%s: x=%x y=%x) and returned %s" % (kind, x, y, bytes(r).hex()))
+    raise Violation("EccDecryptor.decrypt accepted an ephemeral point that is not a valid P-256 point (%s: x=%x y=%x)%s and returned %s" % (kind, x, y, hist, bytes(r).hex()))
 
 
 _key = st.one_of(st.binary(min_size=16, max_size=16), S.session_key(allow_default=False))
@@ -372,7 +389,10 @@ def _other_curve_point(name, k):
 
 @st.composite
 def strat_reject(draw, tier="quick"):
-    kind = draw(st.sampled_from(["off-curve", "coord>=p", "zero", "other-curve", "off-by-one"]))
+    kind = draw(st.sampled_from(["off-curve", "coord>=p", "zero", "other-curve", "off-by-one", "same-x-other-y"]))
+    warm = None
+    if draw(st.booleans()):
+        warm = M.p256().mul(draw(st.integers(1, N - 1)))  # history: an unrelated genuine block
     if kind == "off-curve":
         x, y = draw(st.integers(0, P - 1)), draw(st.integers(0, P - 1))
     elif kind == "coord>=p":
@@ -380,6 +400,8 @@ def strat_reject(draw, tier="quick"):
         # x + p or y + p where it still fits in 32 bytes, else a plain out-of-range coordinate
         which = draw(st.integers(0, 2))
         x, y = pt
+        if draw(st.booleans()):
+            warm = pt
         if which == 0 and x + P < (1 << 256):
             x = x + P
         elif which == 1 and y + P < (1 << 256):
@@ -392,8 +414,14 @@ def strat_reject(draw, tier="quick"):
         x, y = _other_curve_point(draw(st.sampled_from(["secp256k1", "brainpoolP256r1"])), draw(st.integers(1, 1 << 200)))
     else:
         pt = M.p256().mul(draw(st.integers(1, N - 1)))
-        x, y = pt[0], (pt[1] + draw(st.sampled_from([1, P - 1]))) % P
-    return dict(kind=kind, x=x, y=y, sel=draw(st.integers(0, 3)), priv=draw(S.ecc_priv()), ct=draw(st.binary(min_size=16, max_size=16)))
+        if kind == "same-x-other-y":
+            y = draw(st.integers(0, P - 1))
+            x, y = pt[0], (y if y not in (pt[1], P - pt[1]) else (y + 2) % P)
+        else:
+            x, y = pt[0], (pt[1] + draw(st.sampled_from([1, P - 1]))) % P
+        if draw(st.integers(0, 3)):
+            warm = pt if draw(st.booleans()) else (pt[0], P - pt[1])
+    return dict(kind=kind, warm=warm, x=x, y=y, sel=draw(st.integers(0, 3)), priv=draw(S.ecc_priv()), ct=draw(st.binary(min_size=16, max_size=16)))
 
 
 # ---- constructed: points with a small y (so that y + p still fits in 32 bytes) ------------------------------------------
